@@ -294,7 +294,7 @@ func newCallRun(e *Engine, sc *Script, id int, seed int64) *callRun {
 	}
 	// over HTTP streaming trailers travel in a proto string field: keep -bin
 	// trailer values valid UTF-8 there (the other class is a pinned finding)
-	binUTF8 := (sc.Tr == "http" || sc.Tr == "httpmem") && sc.Kind != "unary"
+	binUTF8 := (sc.Tr == "http" || sc.Tr == "httpmem") && sc.Kind != "unary" && sc.TrlBin != "raw"
 	for i := 1; i <= sc.NHdr; i++ {
 		c.hdrOps = append(c.hdrOps, genMD(r, "h", i, false))
 	}
